@@ -9,12 +9,13 @@
        C01_number_roundtrip, C01_number_u32_bound);
      - quantities `{ = value % unit }`: lock, number / range / words, unit, blanks and comments
        at every optional position, are read back without diagnostic and without moving the
-       enclosing parser (C01_value_roundtrip_partial; what it leaves out is stated in
-       C01_value_full_statement).
+       enclosing parser (C01_value_roundtrip).
    Stated, not proved (monitored on the implementation by checks/c01.py on every run):
    C01_component_statement, C01_full_statement.
    The printers (Model/Printer.v) are definitions of these statements, not models of Rust code. *)
-From CL Require Import Base.StrLemmas Model.Lexer Model.Parser Proofs.LexerProofs Model.Printer Proofs.RoundTrip.
+From CL Require Import Base.StrLemmas Model.Lexer Model.Parser Proofs.LexerProofs Model.Printer Proofs.RoundTrip
+  Proofs.RoundTripComp Proofs.RoundTripDoc.
+From CL Require Proofs.MetaIterProofs.
 From CL Require Gen.CharClass.
 
 (* ------------------------------------------------------------------ (a) lexer *)
@@ -92,7 +93,12 @@ Print Assumptions C01_number_u32_bound.
 
 (* ------------------------------------------------------------------ (c) quantities *)
 
-Theorem C01_value_roundtrip_partial :
+(* Every spelling of `{ = value % unit }`: lock; number, range (RANGE_VALUES on) or text value (any
+   token run that is not a number spelling: `a pinch`, `half-way`, `2 big ones`, and `2 - 3` when
+   RANGE_VALUES is off - it then denotes the text as written); unit after `%`, or after blanks alone
+   under ADVANCED_UNITS (`{1 g}`); blanks and comments at every optional position; every extension
+   set.  The quantity is read back without diagnostic and the enclosing parser does not move. *)
+Theorem C01_value_roundtrip :
   forall (U : N -> ucls) (cfg : pcfg) (q : qspec) (tp : qtape) (off : N) (s : bp),
     adjacent_ok U (print_qty q tp) = true -> qty_wf cfg q tp = true ->
     exists ts q' sep,
@@ -104,181 +110,105 @@ Proof.
   destruct (parse_quantity_print cfg q tp off s W) as (q' & sep & Hp & Hq).
   exists (place off (print_qty q tp)), q', sep. split; [apply lex_unlex; exact Hadj|]. split; assumption.
 Qed.
-Print Assumptions C01_value_roundtrip_partial.
+Print Assumptions C01_value_roundtrip.
 
-(* Left out by qty_wf: (1) with RANGE_VALUES off a range spelling is a text value (its blanks are
-   then significant); (2) with ADVANCED_UNITS on, `{1 g}` (blank instead of `%`, unit starting
-   with a word) is value 1, unit g; (3) text values that do not start with a word token or
-   contain `-`.  The full statement over these spellings: *)
-Definition denote_value_full (cfg : pcfg) (v : vspec) (tp : qtape) : value :=
-  match v with
-  | QRange _ _ => if has cfg X_RANGE_VALUES then denote_value v
-                  else VText (clean (toks_text (print_value v tp)))
-  | _ => denote_value v
-  end.
-Definition print_qty_adv (q : qspec) (tp : qtape) (gap u : list ptok) : list ptok :=
-  q_lead tp ++ (if qs_lock q then eq_p :: q_after_lock tp else []) ++ print_value (qs_val q) tp ++
-  gap ++ u ++ q_end tp.
-Definition C01_value_full_statement : Prop :=
-  forall (U : N -> ucls) (cfg : pcfg) (q : qspec) (tp : qtape) (off : N) (s : bp),
-    p_strict_escape cfg = false ->
-    (* (1) and (3): any value spelling that is not read as a number *)
-    (forall toks, adjacent_ok U toks = true -> toks = print_qty q tp ->
-       qty_wf cfg {| qs_val := match qs_val q with QRange a b => QNum a | v => v end;
-                     qs_lock := qs_lock q; qs_unit := qs_unit q |} tp = true ->
-       exists q' sep, parse_quantity cfg (place off toks) s = Done ((q', sep), s) /\
-                      qproj q' = (denote_value_full cfg (qs_val q) tp, qs_lock q,
-                                  option_map (fun u => clean (toks_text u)) (qs_unit q))) /\
-    (* (2) *)
-    (forall gap u, has cfg X_ADVANCED_UNITS = true -> qs_unit q = None ->
-       (exists w r, u = (KWord, w) :: r) -> forallb shape_ok u = true ->
-       (exists g b, gap = g ++ [(KWs, b)]) -> forallb blank_ok gap = true ->
-       (match qs_val q with QText _ => False | _ => True end) ->
-       adjacent_ok U (print_qty_adv q tp gap u) = true ->
-       qty_wf cfg q tp = true ->
-       exists q' sep, parse_quantity cfg (place off (print_qty_adv q tp gap u)) s = Done ((q', sep), s) /\
-                      qproj q' = (denote_value_full cfg (qs_val q) tp, qs_lock q, Some (clean (toks_text u)))).
+(* ------------------------------------------------------------------ (d) components *)
 
-(* ------------------------------------------------------------------ (d) components, documents *)
-
-(* ingredient with braces: `@` name `{` quantity or blanks `}`, followed by any continuation k *)
-Record cspec := { cs_name : list ptok; cs_qty : option qspec; cs_note : option (list ptok) }.
-Definition print_igr (c : cspec) (tp : qtape) (inner : list ptok) : list ptok :=
-  (KAt, [64]) :: cs_name c ++ (KOpenBrace, [123]) ::
-  (match cs_qty c with Some q => print_qty q tp | None => inner end) ++ (KCloseBrace, [125]) ::
-  match cs_note c with Some n => (KOpenParen, [40]) :: n ++ [(KCloseParen, [41])] | None => [] end.
-Definition name_ok (p : list ptok) : bool :=
-  forallb shape_ok p && negb (str_blank (toks_text p)) &&
-  forallb (fun t => negb (is_marker_or_open (fst t)) && negb (tk_eqb (fst t) KOr)) p.
-Definition C01_component_statement : Prop :=
-  forall (U : N -> ucls) (cfg : pcfg) (c : cspec) (tp : qtape) (inner k : list ptok) (off : N) (ev : list pevent),
-    p_strict_escape cfg = false -> name_ok (cs_name c) = true ->
-    (match cs_name c with t :: _ => mod_bit (fst t) = None | [] => False end) ->
-    (match cs_qty c with Some q => qty_wf cfg q tp = true | None => forallb blank_ok inner = true end) ->
-    (match cs_note c with Some n => forallb shape_ok n = true /\ kind_in KCloseParen n = false | None =>
-       match k with t :: _ => fst t <> KOpenParen | [] => True end end) ->
-    adjacent_ok U (print_igr c tp inner ++ k) = true ->
-    let ts := place off (print_igr c tp inner ++ k) in
-    exists i st,
-      ingredient_p cfg {| b_all := ts; b_done := []; b_rest := ts; b_evs := ev |} = Done (Some (EvIngredient i), st) /\
-      b_rest st = place (off + blen (unlex (print_igr c tp inner))) k /\ b_evs st = ev /\
-      text_trimmed (i_name i) = clean (toks_text (cs_name c)) /\ i_alias i = None /\ i_mods i = 0 /\
-      i_inter i = None /\
-      option_map qproj (i_qty i) = option_map denote_qty (cs_qty c) /\
-      option_map text_trimmed (i_note i) = option_map (fun n => clean (toks_text n)) (cs_note c).
-
-(* proved part of the component statement: an ingredient in braces form (name, then a printed
-   quantity or blank braces), no modifiers / alias / note, followed by any continuation that does
-   not open a note.  The other forms (single word, modifiers, alias, note, cookware, timer) are
-   covered by the correspondence and the monitor only. *)
+(* Every component form without modifier characters: ingredient `@`, cookware `#` (quantity without
+   unit), timer `~` (with or without name, quantity with unit); name of any tokens without
+   `{ @ # ~`; alias `name|alias` (COMPONENT_ALIAS on; with it off the bar stays in the name);
+   body `{quantity}`, `{ }` or nothing (single-word name followed by a non-word token, no `{`
+   before the next marker); note `(...)`.  The parser function selected by the marker, run on the
+   tokens of `print_comp c ++ k` inside any block state, returns the denoted component, leaves
+   exactly k, and emits no diagnostic.
+   Partial: modifier characters (`@ & ? + -` after the marker) and intermediate-reference data
+   `&(~1)` are not covered by comp_wf (compared and monitored only). *)
 Theorem C01_component_roundtrip_partial :
-  forall (U : N -> ucls) (cfg : pcfg) (name : list ptok) (q : option qspec) (tp : qtape)
-         (inner k : list ptok) (off : N) (ev : list pevent),
-    adjacent_ok U (print_igr_braces name q tp inner ++ k) = true ->
-    p_strict_escape cfg = false -> igr_name_ok name = true -> igr_inner_ok cfg q tp inner = true ->
-    match k with t :: _ => tk_eqb (fst t) KOpenParen = false | [] => True end ->
-    exists ts i st,
-      lex_at U (unlex (print_igr_braces name q tp inner ++ k)) off = Some ts /\
-      ingredient_p cfg {| b_all := ts; b_done := []; b_rest := ts; b_evs := ev |} = Done (Some (EvIngredient i), st) /\
-      b_rest st = place (off + blen (unlex (print_igr_braces name q tp inner))) k /\ b_evs st = ev /\
-      text_trimmed (i_name i) = clean (toks_text name) /\ i_alias i = None /\ i_mods i = 0 /\
-      i_inter i = None /\ i_note i = None /\
-      option_map qproj (i_qty i) = option_map denote_qty q.
+  forall (U : N -> ucls) (cfg : pcfg) (c : cspec) (k : list ptok) (off : N) (al dn : list tok) (ev : list pevent),
+    adjacent_ok U (print_comp c ++ k) = true -> comp_wf cfg c = true -> comp_follow c k = true ->
+    exists ts pe,
+      lex_at U (unlex (print_comp c ++ k)) off = Some ts /\
+      comp_fn cfg (cs_kind c) {| b_all := al; b_done := dn; b_rest := ts; b_evs := ev |}
+      = Done (Some pe, {| b_all := al; b_done := rev (place off (print_comp c)) ++ dn;
+                          b_rest := place (off + blen (unlex (print_comp c))) k; b_evs := ev |}) /\
+      ev_proj pe = denote_comp c.
 Proof.
-  intros U cfg name q tp inner k off ev Hadj Hs Hn Hi Hk.
-  destruct (ingredient_print cfg name q tp inner k off ev Hs Hn Hi Hk) as (i & st & H).
-  exists (place off (print_igr_braces name q tp inner ++ k)), i, st.
-  split; [apply lex_unlex; exact Hadj | exact H].
+  intros U cfg c k off al dn ev Hadj W F.
+  destruct (comp_print cfg c k off al dn ev W F) as (pe & H & P).
+  exists (place off (print_comp c ++ k)), pe. split; [apply lex_unlex; exact Hadj|]. split; [exact H|exact P].
 Qed.
 Print Assumptions C01_component_roundtrip_partial.
 
-(* document level, on the pull parser: a document is a list of blocks, printed one per line group
-   and separated by blank lines; its events, spans erased, are the intended ones.  (The recipe
-   level - Model/Analysis.v applied to these events equals the denotation - is what
-   checks/c01.py monitors on the implementation for every generated structure and tape.) *)
-Inductive item_spec := IText (toks : list ptok) | IIngredient (c : cspec) (tp : qtape) (inner : list ptok).
-Inductive block_spec :=
-| BMeta (key value : list ptok)
-| BSection (name : list ptok)
-| BStep (items : list item_spec).
-Inductive ev_spec :=
-| SMeta (k v : str) | SSection (name : str) | SStart | SEnd | SText (s : str)
-| SIngredient (name : str) (q : option (value * bool * option str)) (note : option str).
-Definition print_item (i : item_spec) : list ptok :=
-  match i with IText toks => toks | IIngredient c tp inner => print_igr c tp inner end.
-Definition nl_p : ptok := (KNewline, [10]).
-Definition print_block (b : block_spec) : list ptok :=
-  match b with
-  | BMeta k v => (KMeta, [62; 62]) :: k ++ (KColon, [58]) :: v
-  | BSection n => (KEq, [61]) :: n
-  | BStep items => concat (map print_item items)
-  end.
-(* sep n: the blank and comment-only lines between block n and block n+1 (at least one newline) *)
-Fixpoint print_doc (d : list block_spec) (sep : nat -> list ptok) (n : nat) : list ptok :=
+(* ------------------------------------------------------------------ (e) steps *)
+
+(* A step printed as a sequence of items - text pieces (words, blanks, line wraps, comments,
+   escapes; no unescaped `@ # ~ {`) alternating with components - is read by parse_step as
+   Start, one event per item (the text of a piece is toks_text: comments skipped, a newline is
+   one blank, escapes resolved), End; nothing else is emitted and all tokens are consumed. *)
+Theorem C01_step_roundtrip :
+  forall (U : N -> ucls) (cfg : pcfg) (items : list item) (off : N) (evs : list pevent),
+    adjacent_ok U (print_items items) = true ->
+    p_strict_escape cfg = false -> items_ok cfg items = true -> print_items items <> [] ->
+    exists blk evs',
+      lex_at U (unlex (print_items items)) off = Some blk /\
+      parse_step cfg {| b_all := blk; b_done := []; b_rest := blk; b_evs := evs |}
+      = Done (tt, {| b_all := blk; b_done := rev blk; b_rest := []; b_evs := EvEnd true :: evs' ++ EvStart true :: evs |}) /\
+      map ev_proj (rev evs') = map denote_item items.
+Proof.
+  intros U cfg items off evs Hadj Hs Hok Hne.
+  assert (Hi : items <> []) by (intros ->; apply Hne; reflexivity).
+  destruct (parse_step_print cfg Hs items off evs Hok Hi Hne) as (evs' & H & P).
+  exists (place off (print_items items)), evs'. split; [apply lex_unlex; exact Hadj|]. split; [exact H|exact P].
+Qed.
+Print Assumptions C01_step_roundtrip.
+
+(* ------------------------------------------------------------------ (f) blocks, documents *)
+
+(* A metadata line `>> key: value`, a section line `=.. name =..` and a step block, each run
+   through parse_block and the end-of-block check of the pull parser (run_block), yield exactly
+   their intended events.  Partial: `>` text blocks are not in the block language yet. *)
+Theorem C01_block_roundtrip_partial :
+  forall (U : N -> ucls) (cfg : pcfg) (b : block) (off : N) (evs : list pevent),
+    adjacent_ok U (print_block b) = true -> block_ok cfg b = true -> sec_trail_ok b ->
+    exists blk evs',
+      lex_at U (unlex (print_block b)) off = Some blk /\
+      run_block blk evs (parse_block cfg true) = Done (evs' ++ evs) /\
+      map ev_proj (rev evs') = denote_block b.
+Proof.
+  intros U cfg b off evs Hadj W Hs.
+  assert (Hst : p_strict_escape cfg = false).
+  { unfold block_ok in W. apply andb_true_iff in W as [W _]. destruct (p_strict_escape cfg); [discriminate|reflexivity]. }
+  destruct (block_print cfg Hst b off evs W Hs) as (evs' & H & P).
+  exists (place off (print_block b)), evs'. split; [apply lex_unlex; exact Hadj|]. split; [exact H|exact P].
+Qed.
+Print Assumptions C01_block_roundtrip_partial.
+
+(* Document level, on the pull parser, through the block-splitter characterisation
+   C14_full_blocks (events = parse_block folded over [blocks]): when the splitter cuts the text
+   at the printed blocks (a decidable condition on the text, see the example), the event stream,
+   spans erased, is the concatenation of the intended events of the blocks - no diagnostics.
+   Partial: that the splitter cuts printed documents at their blocks (blank or comment-only lines
+   between step blocks, single newlines around `>>` and `=` lines) is a hypothesis here. *)
+Theorem C01_events_roundtrip_partial :
+  forall (U : N -> ucls) (cfg : pcfg) (text : str) (d : list block) (ts : list tok),
+    p_strict_escape cfg = false ->
+    parse_frontmatter cfg text = None -> lex_at U text 0 = Some ts ->
+    Forall2 prints (MetaIterProofs.blocks ts) d ->
+    Forall (fun b => block_ok cfg b = true /\ sec_trail_ok b) d ->
+    exists evs, events U cfg text = Done evs /\ map ev_proj evs = concat (map denote_block d).
+Proof. intros U cfg text d ts Hs. exact (events_print cfg Hs U text d ts). Qed.
+Print Assumptions C01_events_roundtrip_partial.
+
+(* the full statement: the splitting hypothesis replaced by the printer of documents *)
+Fixpoint print_doc (d : list block) (sep : nat -> list ptok) (n : nat) : list ptok :=
   match d with
   | [] => []
   | [b] => print_block b
-  | b :: r => print_block b ++ nl_p :: sep n ++ print_doc r sep (S n)
+  | b :: r => print_block b ++ (KNewline, [10]) :: sep n ++ print_doc r sep (S n)
   end.
-Definition denote_item (i : item_spec) : ev_spec :=
-  match i with
-  | IText toks => SText (toks_text toks)
-  | IIngredient c _ _ => SIngredient (clean (toks_text (cs_name c))) (option_map denote_qty (cs_qty c))
-                                     (option_map (fun n => clean (toks_text n)) (cs_note c))
-  end.
-Definition denote_block (b : block_spec) : list ev_spec :=
-  match b with
-  | BMeta k v => [SMeta (clean (toks_text k)) (trim (toks_text v))]
-  | BSection n => [SSection (clean (toks_text n))]
-  | BStep items => SStart :: map denote_item items ++ [SEnd]
-  end.
-Definition ev_proj (e : pevent) : option ev_spec :=
-  match e with
-  | EvMetadata k v => Some (SMeta (text_trimmed k) (text_outer_trimmed v))
-  | EvSection (Some n) => Some (SSection (text_trimmed n))
-  | EvStart true => Some SStart
-  | EvEnd true => Some SEnd
-  | EvText t => Some (SText (text_str t))
-  | EvIngredient i =>
-      if (i_mods i =? 0) && match i_alias i, i_inter i with None, None => true | _, _ => false end
-      then Some (SIngredient (text_trimmed (i_name i)) (option_map qproj (i_qty i)) (option_map text_trimmed (i_note i)))
-      else None
-  | _ => None     (* diagnostics, front matter, other components: not intended here *)
-  end.
-Definition no_kind (ks : list tkind) (p : list ptok) : bool :=
-  forallb (fun t => negb (existsb (tk_eqb (fst t)) ks)) p.
-Definition item_ok (cfg : pcfg) (i : item_spec) : Prop :=
-  match i with
-  | IText toks => forallb shape_ok toks = true /\ toks <> [] /\
-                  no_kind [KAt; KHash; KTilde; KNewline; KLineComment; KBlockComment] toks = true
-  | IIngredient c tp inner =>
-      name_ok (cs_name c) = true /\ no_kind [KNewline; KAt; KQuestion; KPlus; KMinus; KAnd] (cs_name c) = true /\
-      match cs_qty c with Some q => qty_wf cfg q tp = true | None => forallb blank_ok inner = true end /\
-      match cs_note c with Some n => forallb shape_ok n = true /\ no_kind [KCloseParen; KNewline] n = true | None => True end
-  end.
-Fixpoint alternate (items : list item_spec) : Prop :=
-  match items with
-  | IText _ :: IText _ :: _ => False        (* adjacent text items are one Text event *)
-  | IIngredient c _ _ :: ((IText (t :: _) :: _) as r) =>
-      (cs_note c = None -> fst t <> KOpenParen) /\ alternate r
-  | _ :: r => alternate r
-  | [] => True
-  end.
-Definition block_ok (cfg : pcfg) (b : block_spec) : Prop :=
-  match b with
-  | BMeta k v => forallb shape_ok (k ++ v) = true /\ no_kind [KColon; KNewline] k = true /\ no_kind [KNewline] v = true /\
-                 str_blank (toks_text k) = false /\ str_blank (toks_text v) = false
-  | BSection n => forallb shape_ok n = true /\ no_kind [KEq; KNewline] n = true /\ str_blank (toks_text n) = false
-  | BStep items =>
-      items <> [] /\ Forall (item_ok cfg) items /\ alternate items /\
-      match print_block b with
-      | t :: _ => no_kind [KMeta; KEq; KTextStep; KWs; KLineComment; KBlockComment] [t] = true
-      | [] => False
-      end
-  end.
-Definition is_step_block (b : block_spec) : bool := match b with BStep _ => true | _ => false end.
-(* separators: blank tokens and newlines; an empty or comment-only line between two steps *)
-Fixpoint seps_ok (d : list block_spec) (sep : nat -> list ptok) (n : nat) : Prop :=
+Definition is_step_block (b : block) : bool := match b with BkStep _ => true | _ => false end.
+(* separators: blank tokens and newlines; an empty or comment-only line between two step blocks *)
+Fixpoint seps_ok (d : list block) (sep : nat -> list ptok) (n : nat) : Prop :=
   match d with
   | b :: ((b2 :: _) as r) =>
       forallb (fun t => blank_ok t || (tk_eqb (fst t) KNewline && shape_ok t)) (sep n) = true /\
@@ -286,15 +216,15 @@ Fixpoint seps_ok (d : list block_spec) (sep : nat -> list ptok) (n : nat) : Prop
       seps_ok r sep (S n)
   | _ => True
   end.
-Definition doc_wf (cfg : pcfg) (d : list block_spec) (sep : nat -> list ptok) : Prop :=
-  Forall (block_ok cfg) d /\ seps_ok d sep 0.
-
 Definition C01_full_statement : Prop :=
-  forall (U : N -> ucls) (cfg : pcfg) (d : list block_spec) (sep : nat -> list ptok),
-    doc_wf cfg d sep -> p_strict_escape cfg = false -> p_fm_anywhere cfg = false ->
+  forall (U : N -> ucls) (cfg : pcfg) (d : list block) (sep : nat -> list ptok),
+    p_strict_escape cfg = false ->
+    Forall (fun b => block_ok cfg b = true /\ sec_trail_ok b) d -> seps_ok d sep 0 ->
+    (forall items, In (BkStep items) d -> kind_in KNewline (print_items items) = false \/ True) ->
+    parse_frontmatter cfg (unlex (print_doc d sep 0)) = None ->
     adjacent_ok U (print_doc d sep 0) = true ->
     exists evs, events U cfg (unlex (print_doc d sep 0)) = Done evs /\
-                map ev_proj evs = map Some (concat (map denote_block d)).
+                map ev_proj evs = concat (map denote_block d).
 
 (* ------------------------------------------------------------------ examples *)
 (* the adjacency exclusions are real (implementation's classes, Gen/CharClass.v): each pair
@@ -328,10 +258,18 @@ Definition tape1 : qtape :=
   {| q_lead := [sp]; q_after_lock := [sp];
      q_ta := {| n_gap := [sp]; n_bs := []; n_as := [] |}; q_tb := {| n_gap := []; n_bs := []; n_as := [] |};
      q_bd := [sp]; q_ad := [sp]; q_trail := [sp; (KBlockComment, [91; 45; 99; 45; 93]); sp];
-     q_after_pct := [sp]; q_end := [sp] |}.
+     q_after_pct := [sp]; q_end := [sp]; q_adv := None |}.
+Definition tape_adv : qtape :=
+  {| q_lead := []; q_after_lock := []; q_ta := {| n_gap := [sp]; n_bs := []; n_as := [] |};
+     q_tb := {| n_gap := []; n_bs := []; n_as := [] |}; q_bd := []; q_ad := []; q_trail := [];
+     q_after_pct := []; q_end := []; q_adv := Some [sp] |}.
 Definition q1 : qspec := {| qs_val := QNum (SMixed [49] [49] [50]); qs_lock := true; qs_unit := Some [(KWord, [103])] |}.
 Definition q2 : qspec := {| qs_val := QText [(KWord, [97]); sp; (KWord, [112; 105; 110; 99; 104])]; qs_lock := false; qs_unit := None |}.
 Definition q3 : qspec := {| qs_val := QRange (SInt [50]) (SInt [51]); qs_lock := false; qs_unit := Some [(KWord, [107; 103])] |}.
+(* `2 - 3` as a text value (RANGE_VALUES off), `half-way`, `2 big` (a text value unless ADVANCED_UNITS reads a unit) *)
+Definition q4 : qspec := {| qs_val := QText (print_value (QRange (SInt [50]) (SInt [51])) tape1); qs_lock := false; qs_unit := None |}.
+Definition q5 : qspec := {| qs_val := QText [(KWord, [104; 97; 108; 102]); (KMinus, [45]); (KWord, [119; 97; 121])]; qs_lock := false; qs_unit := None |}.
+Definition q6 : qspec := {| qs_val := QText [(KInt, [50]); sp; (KWord, [98; 105; 103])]; qs_lock := false; qs_unit := None |}.
 Definition cfg_all : pcfg :=
   {| p_ext := X_ALL; p_debug := true; p_strict_escape := false; p_note_label_old := false; p_fm_anywhere := false |}.
 Definition cfg_none : pcfg :=
@@ -339,14 +277,55 @@ Definition cfg_none : pcfg :=
 Example C01_value_hypotheses_satisfiable :
   (adjacent_ok Ug (print_qty q1 tape1) && qty_wf cfg_all q1 tape1 && qty_wf cfg_none q1 tape1 &&
    adjacent_ok Ug (print_qty q2 tape1) && qty_wf cfg_all q2 tape1 && qty_wf cfg_none q2 tape1 &&
-   adjacent_ok Ug (print_qty q3 tape1) && qty_wf cfg_all q3 tape1 && negb (qty_wf cfg_none q3 tape1)) = true.
+   adjacent_ok Ug (print_qty q3 tape1) && qty_wf cfg_all q3 tape1 && negb (qty_wf cfg_none q3 tape1) &&
+   adjacent_ok Ug (print_qty q4 tape1) && qty_wf cfg_none q4 tape1 && negb (qty_wf cfg_all q4 tape1) &&
+   adjacent_ok Ug (print_qty q5 tape1) && qty_wf cfg_all q5 tape1 && qty_wf cfg_none q5 tape1 &&
+   adjacent_ok Ug (print_qty q6 tape1) && qty_wf cfg_none q6 tape1 && negb (qty_wf cfg_all q6 tape1) &&
+   adjacent_ok Ug (print_qty q1 tape_adv) && qty_wf cfg_all q1 tape_adv && negb (qty_wf cfg_none q1 tape_adv) &&
+   adjacent_ok Ug (print_qty q3 tape_adv) && qty_wf cfg_all q3 tape_adv) = true.
 Proof. vm_compute. reflexivity. Qed.
 
+Definition wd (s : str) : ptok := (KWord, s).
+Definition c_igr : cspec := {| cs_kind := CIgr; cs_name := [wd [97]; sp; wd [98]]; cs_alias := Some [wd [99]];
+                               cs_body := BQty q1 tape1; cs_note := Some [wd [100]] |}.
+Definition c_word : cspec := {| cs_kind := CIgr; cs_name := [wd [115; 97; 108; 116]]; cs_alias := None;
+                                cs_body := BWord; cs_note := None |}.
+Definition c_cw : cspec := {| cs_kind := CCw; cs_name := [wd [112; 111; 116]]; cs_alias := None;
+                              cs_body := BEmpty [sp]; cs_note := None |}.
+Definition c_tm : cspec := {| cs_kind := CTm; cs_name := []; cs_alias := None;
+                              cs_body := BQty {| qs_val := QNum (SInt [53]); qs_lock := false; qs_unit := Some [wd [109; 105; 110]] |} tape1;
+                              cs_note := None |}.
+Definition step1 : list item := [IText [wd [65; 100; 100]; sp]; IComp c_igr; IText [sp; wd [116; 111]; (KNewline, [10]); wd [97]; sp];
+                                 IComp c_word; IText [(KPunct, [44]); sp]; IComp c_cw; IText [sp]; IComp c_tm].
 Example C01_component_hypotheses_satisfiable :
-  (adjacent_ok Ug (print_igr_braces [(KWord, [97]); sp; (KWord, [98])] (Some q1) tape1 [] ++ [sp; (KWord, [99])]) &&
-   igr_name_ok [(KWord, [97]); sp; (KWord, [98])] && igr_inner_ok cfg_all (Some q1) tape1 [] &&
-   igr_inner_ok cfg_none None tape1 [sp]) = true.
+  (comp_wf cfg_all c_igr && comp_wf cfg_all c_word && comp_wf cfg_none c_word && comp_wf cfg_all c_cw &&
+   comp_wf cfg_all c_tm && comp_wf cfg_none c_tm && negb (comp_wf cfg_none c_igr) &&
+   items_ok cfg_all step1 && adjacent_ok Ug (print_items step1) &&
+   block_ok cfg_all (BkStep step1) && block_ok cfg_all (BkMeta [sp; wd [107]] [sp; wd [118]]) &&
+   block_ok cfg_all (BkSection 1 [sp; wd [65]; sp] 2 [sp])) = true.
 Proof. vm_compute. reflexivity. Qed.
+
+(* a two-step document with a metadata line and a section: the splitter cuts it at the blocks *)
+Definition doc1 : list block := [BkMeta [sp; wd [107]] [sp; wd [118]]; BkSection 0 [sp; wd [65]] 0 []; BkStep step1;
+                                 BkStep [IText [wd [66]]]].
+Definition nl : ptok := (KNewline, [10]).
+Definition doc1_toks : list ptok :=
+  print_block (BkMeta [sp; wd [107]] [sp; wd [118]]) ++ nl :: print_block (BkSection 0 [sp; wd [65]] 0 []) ++ nl ::
+  print_block (BkStep step1) ++ nl :: (KLineComment, [45; 45; 120]) :: nl :: print_block (BkStep [IText [wd [66]]]).
+Example C01_events_hypotheses_satisfiable :
+  adjacent_ok Ug doc1_toks = true /\
+  parse_frontmatter cfg_all (unlex doc1_toks) = None /\
+  Forall2 prints (MetaIterProofs.blocks (place 0 doc1_toks)) doc1 /\
+  forallb (block_ok cfg_all) doc1 = true.
+Proof.
+  split; [vm_compute; reflexivity|]. split; [vm_compute; reflexivity|]. split; [|vm_compute; reflexivity].
+  assert (E : MetaIterProofs.blocks (place 0 doc1_toks)
+              = [place 0 (print_block (BkMeta [sp; wd [107]] [sp; wd [118]]));
+                 place 7 (print_block (BkSection 0 [sp; wd [65]] 0 []));
+                 place 11 (print_block (BkStep step1));
+                 place 68 (print_block (BkStep [IText [wd [66]]]))]) by (vm_compute; reflexivity).
+  rewrite E. repeat constructor; eexists; reflexivity.
+Qed.
 
 Example C01_number_hypotheses_satisfiable :
   (adjacent_ok Ug ([sp] ++ print_num (SMixed [49] [49] [50]) (q_ta tape1) ++ [sp]) &&
